@@ -537,6 +537,70 @@ def reach_firewall(src: int, dst: int, tog: int, warm: bool):
             check(got_payload[third] == 0, lambda: f"unicast exchange {s}->{d} was handed to software on {third}")
 
 
+WL_TOGGLES = ["none", "ap1_down", "ap2_down", "r1_off", "r2_off", "r1_wired_down", "r2_acl_deny_icmp", "other_frequency", "dst_off"]
+
+
+def reach_wireless(from_a: bool, tog: int, warm: bool):
+    """The shipped wireless-WAN scenario (pc_a - wireless router 1 ~air~ wireless router 2 - pc_b) built by the real
+    loader: a ping across the wireless hop succeeds exactly when every device and interface on the path is up, both
+    access points are on the same frequency and no ACL denies it; nothing is handed to the peer's software otherwise."""
+    import yaml
+
+    from primaite.game.game import PrimaiteGame
+    from primaite.simulator.network.hardware.nodes.network.router import ACLAction
+
+    assume(rng(tog, 0, len(WL_TOGGLES) - 1))
+    t = pick(WL_TOGGLES, tog)
+    from_a = True if from_a else False
+    with concrete():
+        quiet()
+        with open("/repo/tests/assets/configs/wireless_wan_network_config.yaml") as fh:
+            cfg = yaml.safe_load(fh)
+        if t == "other_frequency":
+            for n in cfg["simulation"]["network"]["nodes"]:
+                if n["hostname"] == "router_2":
+                    n["wireless_access_point"]["frequency"] = "WIFI_5"
+        game = PrimaiteGame.from_config(cfg)
+        net = game.simulation.network
+        a, b = net.get_node_by_hostname("pc_a"), net.get_node_by_hostname("pc_b")
+        r1, r2 = net.get_node_by_hostname("router_1"), net.get_node_by_hostname("router_2")
+        if warm:
+            a.ping("192.168.2.2", pings=1)
+            b.ping("192.168.0.2", pings=1)
+        src, dst, dst_ip = (a, b, "192.168.2.2") if from_a else (b, a, "192.168.0.2")
+        if t == "ap1_down":
+            r1.wireless_access_point.disable()
+        elif t == "ap2_down":
+            r2.wireless_access_point.disable()
+        elif t == "r1_off":
+            r1.config.shut_down_duration = 0
+            r1.power_off()
+        elif t == "r2_off":
+            r2.config.shut_down_duration = 0
+            r2.power_off()
+        elif t == "r1_wired_down":
+            r1.network_interface[2].disable()
+        elif t == "r2_acl_deny_icmp":
+            r2.acl.add_rule(action=ACLAction.DENY, protocol="icmp", position=0)
+        elif t == "dst_off":
+            dst.config.shut_down_duration = 0
+            dst.power_off()
+        got = []
+        orig = dst.software_manager.receive_payload_from_session_manager
+        object.__setattr__(dst.software_manager, "receive_payload_from_session_manager", lambda *aa, **kw: (got.append(1), orig(*aa, **kw))[1])
+        ok = False
+        try:
+            for _ in range(4):
+                ok = src.ping(dst_ip, pings=1) or ok
+        except Exception as e:
+            fail(f"ping across the wireless hop under {t} raised {type(e).__name__}: {e}")
+    up = t == "none"
+    cover("wl_up" if up else "wl_down")
+    check(bool(ok) == up, lambda: f"ping {'pc_a->pc_b' if from_a else 'pc_b->pc_a'} across the wireless hop under toggle {t} ({'warm' if warm else 'cold'}): result {ok}, model says {up}")
+    if not up:
+        check(not got, lambda: f"with the path down ({t}) a payload was still handed to the destination's software")
+
+
 def _two_router_lan():
     """One LAN (192.168.1.0/24, a switch) with TWO routers on it: r1 is the hosts' default gateway and routes the remote
     subnet 192.168.2.0/24 via r2 (192.168.1.254), which is attached to it directly. Replies from the remote subnet come
@@ -710,6 +774,13 @@ HARNESSES = {
         "thorough": [{"fixed": {"warm": w, "src": s0}, "timeout": 900} for w in (False, True) for s0 in range(4)],
         "cover": ["fw_up", "fw_down"],
         "bounds": "generated firewall-with-DMZ scenario (2 external hosts on a switch, 1 internal, 1 DMZ), all 12 ordered pairs, 13 toggles (each zone port down, firewall off, source interface off, destination off, ICMP denied in each of the six lists), cold/warm ARP",
+    },
+    "reach_wireless": {
+        "fn": reach_wireless,
+        "quick": [{"fixed": {}, "timeout": 280}],
+        "thorough": [{"fixed": {"warm": w}, "timeout": 600} for w in (False, True)],
+        "cover": ["wl_up", "wl_down"],
+        "bounds": "the shipped wireless-WAN scenario (two wireless routers, one host behind each), both directions, 9 toggles (either access point down, either router off, a wired port down, ACL deny, access points on different frequencies, destination off), cold/warm ARP",
     },
     "gateway_lan": {
         "fn": gateway_lan,
